@@ -562,6 +562,42 @@ USE_STDOUT_READERS = {'check_options': {'allow': _check_options_effects}, 'flexe
 def r5(prog, rep, readers=USE_STDOUT_READERS):
     return c17.who_reads(prog, rep, 'C18.R5', ('env_bundle_t', 'use_stdout'), readers, 'writing to stdout instead of a file must not change what is written')
 
+EMITTERS = ('out', 'outn', 'outc', 'out_str', 'out_dec', 'out_hex', 'out_str3', 'out_str_dec', 'out_line_count', 'out_m4_define', 'line_directive_out',
+            'comment', 'visible_define', 'visible_define_str', 'visible_define_int', 'skelout', 'fputs', 'fprintf', 'fputc', 'putc', 'puts', 'printf', 'fwrite', 'add_action')
+
+def r5b(prog, rep):
+    """R5b: whether an output *name* was given (env.did_outfilename) picks the file to open; it may steer an emission only
+    before the first skelout() (where the line-directive hook is still undefined and the emission expands to nothing).
+    An emission under that flag after output has begun makes `-o FILE` differ from `-t` beyond the file names."""
+    n = 0
+    FLD = ('field', 'env_bundle_t', 'did_outfilename')
+    for f in fns(prog):
+        res = Resolver(f)
+        loads = [x for x in f.ins if x.op == 'load' and ir.loc_class(res.loc(x.ops[0])) == FLD]
+        if not loads: continue
+        cfgu = prog.cfg(f, cut=False); cfg = prog.cfg(f)
+        skel = [c for c in f.ins if c.op == 'call' and c.callee == 'skelout']
+        after_skel = set()
+        for c in skel: after_skel |= cfg.reach(c)
+        for b in f.blocks:
+            deps = cfgu.control_deps_closure(b)
+            ctl = [br for br, t in deps if any(d in loads for d in flow.value_slice(f, br.ops[0]) if br.ops)]
+            if not ctl: continue
+            for x in b.ins:
+                if x.op == 'call' and x.callee in EMITTERS:
+                    # writes to stderr are diagnostics, not output
+                    if x.callee in ('fprintf', 'fputs', 'fputc', 'putc', 'fwrite') and any(isinstance(o, tuple) and 'stderr' in set(ir.globs_in(o)) | {d.ops[0][1] for d in [f.def_of(o)] if d is not None and d.op == 'load' and d.ops[0][0] == 'glob'} for o in x.ops):
+                        continue
+                    n += 1
+                    if x in after_skel:
+                        rep.fail('C18.R5', key('C18.R5', f, 'did_outfilename:%s#%d' % (x.callee, ordinal(x))), where(x),
+                                 '%s() is executed only when an output file name was given (env.did_outfilename) and after skeleton output has begun: '
+                                 'the scanner written with -o FILE then differs from the one written with -t by more than the #line file names' % x.callee,
+                                 replay_input='flex -t x.l > a.c ; flex -o b.c x.l ; compare ignoring the names in #line')
+                    else:
+                        rep.ok('C18.R5', '%s: %s() under env.did_outfilename precedes the first skelout(): the line-directive hook is not defined yet' % (where(x), x.callee))
+    return n
+
 # ================================================================ controls / driver
 
 def controls(ctx):
@@ -585,7 +621,7 @@ def run(ctx):
         rep.require(prog.fn(a) is not None, 'anchored function %s() not found in flex' % a)
     controls(ctx)
     c = {}
-    c['R1'] = r1(prog, rep); c['R2'] = r2(prog, rep); c['R3'] = r3(prog, rep); c['R4'] = r4(prog, rep); c['R5'] = r5(prog, rep)
+    c['R1'] = r1(prog, rep); c['R2'] = r2(prog, rep); c['R3'] = r3(prog, rep); c['R4'] = r4(prog, rep); c['R5'] = r5(prog, rep) + r5b(prog, rep)
     rep.setcount('translation_units', len(prog.modules)); rep.setcount('functions_analysed', len(fns(prog)))
     for k_, v in c.items(): rep.setcount('instances_' + k_, v)
     rep.floor('C18.R1', 8, 'census, 3 live getenv, format census, 2 computed formats + skeleton property lines, fork, 2 wait')
